@@ -190,5 +190,38 @@ instance (a : D128) (scale : Int) (r : D128R) : Decidable (RescaleSpec a scale r
   unfold RescaleSpec
   cases r <;> exact inferInstance
 
+/-! ### FEEL `modulo` (DMN 1.3, 10.3.4.5): `dividend − divisor·⌊dividend / divisor⌋`, mathematically -/
+
+/-- `⌊a / b⌋` as an integer, on the exact values (floor division of the two scaled integers at
+the common exponent; `b ≠ 0`) -/
+def floorQuot (a b : D128) : Int :=
+  Int.fdiv (scaled a (min a.exp b.exp)) (scaled b (min a.exp b.exp))
+
+/-- the exact modulo `a − b·⌊a/b⌋` as an integer at the common exponent `min a.exp b.exp`
+(no intermediate rounding; its sign is the sign of the divisor) -/
+def exactMod (a b : D128) : Int :=
+  scaled a (min a.exp b.exp) - scaled b (min a.exp b.exp) * floorQuot a b
+
+/-- `r` is the mathematical modulo `a − b·⌊a/b⌋`, computed exactly and then rounded once to 34
+digits (half-even); an exact zero is a representable zero of either sign.  (`b ≠ 0`.) -/
+def ModuloSpec (a b : D128) (r : D128R) : Prop :=
+  if exactMod a b = 0 then IsZeroWith false r ∨ IsZeroWith true r
+  else RoundsHalfEven (decide (exactMod a b < 0)) (exactMod a b).natAbs 1 (min a.exp b.exp) r
+
+instance (a b : D128) (r : D128R) : Decidable (ModuloSpec a b r) := by unfold ModuloSpec; exact inferInstance
+
+/-- The exact condition under which the formula of `core::modulo` / `impl Rem` — every step
+rounded to 34 digits — is the mathematical modulo: (i) the floor of the *rounded* quotient is the
+floor of the exact quotient, and (ii) the product `b·⌊a/b⌋` is computed exactly.  (Then the last
+step, the subtraction, is the one rounding the specification allows.) -/
+def modExact (a b : D128) : Bool :=
+  match FNum.floor (FNum.div (.fin a) (.fin b)) with
+  | .fin f =>
+    match FNum.mul (.fin b) (.fin f), toInt? f with
+    | .fin p, some q =>
+      decide (q = floorQuot a b) && decide (scaled p (min p.exp b.exp) = scaled b (min p.exp b.exp) * q)
+    | _, _ => false
+  | _ => false
+
 end D128
 end Dmn
